@@ -16,21 +16,21 @@ PROFILES = {
     # name: profile (see vlib.profile_flags)
     "core3":    dict(N=3, L=2, cap=2, head=1, manual=0, pay=0, ctx=0, feat="PSHG"),
     "core3dev": dict(N=3, L=2, cap=2, head=1, manual=0, pay=0, ctx=0, feat="PSHG", dev=1),
-    "peer4m":   dict(N=4, L=3, cap=0, head=0, manual=1, pay=4, ctx=1, feat="PSHG"),
-    "tiny2v":   dict(N=2, L=1, cap=1, head=0, manual=0, pay=5, ctx=2, feat="PSHGV"),
-    "inj3m":    dict(N=3, L=4, cap=0, head=1, manual=1, pay=2, ctx=3, feat="PSHG", inj=(1, 2, 1, 3)),
-    "sparse5":  dict(N=5, L=2, cap=0, head=1, manual=0, pay=1, ctx=1, feat="PSHG", defmode=1, dev=1),
+    "peer4m":   dict(N=4, L=3, cap=0, head=0, manual=1, pay=4, ctx=1, feat="PSHG", cfgorder=2),
+    "tiny2v":   dict(N=2, L=1, cap=1, head=0, manual=0, pay=5, ctx=2, feat="PSHGV", cfgorder=3),
+    "inj3m":    dict(N=3, L=4, cap=0, head=1, manual=1, pay=2, ctx=3, feat="PSHG", inj=(1, 2, 1, 3), cfgorder=1),
+    "sparse5":  dict(N=5, L=2, cap=0, head=1, manual=0, pay=1, ctx=1, feat="PSHG", defmode=1, dev=1, cfgorder=3),
     "one1v":    dict(N=1, L=2, cap=0, head=1, manual=1, pay=3, ctx=0, feat="PSHGV", defmode=2),
-    "big9":     dict(N=9, L=7, cap=3, head=1, manual=0, pay=3, ctx=1, feat="PSHG"),
+    "big9":     dict(N=9, L=7, cap=3, head=1, manual=0, pay=3, ctx=1, feat="PSHG", cfgorder=2),
     "man3":     dict(N=3, L=2, cap=2, head=1, manual=1, pay=0, ctx=0, feat="PSHG"),
     "nolog3":   dict(N=3, L=2, cap=2, head=1, manual=1, pay=0, ctx=0, feat="PSH", cfgorder=1, script_seed="man3"),      # twin of man3 without the log interface
-    "plain3":   dict(N=3, L=1, cap=0, head=1, manual=0, pay=0, ctx=3, feat=""),
+    "plain3":   dict(N=3, L=1, cap=0, head=1, manual=0, pay=0, ctx=3, feat="", cfgorder=3),
     "tour2":    dict(N=2, L=1, cap=1, head=1, manual=0, pay=0, ctx=0, feat="H"),      # constants of spec/MC_tour.cfg: replays tours of the model graph
-    "all4":     dict(N=4, L=2, cap=4, head=1, manual=1, pay=4, ctx=2, feat="AG", std="c++17"),
+    "all4":     dict(N=4, L=2, cap=4, head=1, manual=1, pay=4, ctx=2, feat="AG", std="c++17", cfgorder=2),
     # wide machines: every property's monitors also at state counts where the halved state list is deep, ids need 7 / 8 bits,
     # the serial buffer grows to two bytes and the plan storage is large (the enumerated families use first / middle / last id)
-    "wide64":   dict(N=64, L=2, cap=3, head=1, manual=0, pay=1, ctx=0, feat="PSHG", spread=1, nosim=1),
-    "wide128":  dict(N=128, L=3, cap=0, head=0, manual=1, pay=3, ctx=1, feat="PSHG", spread=1, nosim=1),
+    "wide64":   dict(N=64, L=2, cap=3, head=1, manual=0, pay=1, ctx=0, feat="PSHG", spread=1, nosim=1, cfgorder=3),
+    "wide128":  dict(N=128, L=3, cap=0, head=0, manual=1, pay=3, ctx=1, feat="PSHG", spread=1, nosim=1, cfgorder=2),
     "wide255":  dict(N=255, L=2, cap=4, head=1, manual=1, pay=0, ctx=0, feat="PSHGV", spread=1, nosim=1, dev=1),
     "wide17":   dict(N=17, L=2, cap=0, head=0, manual=0, pay=2, ctx=3, feat="PSHG", spread=1),
     "wide33":   dict(N=33, L=4, cap=5, head=1, manual=1, pay=4, ctx=2, feat="PSHGV", spread=1, nosim=1),
